@@ -145,6 +145,8 @@ pub async fn worker(
 		let config_watcher = config.file_watcher.get();
 		if watcher.is_none() || watcher_type != config_watcher {
 			debug!(kind=?config_watcher, "creating new watcher");
+			// a new watcher has nothing registered yet
+			pathset.clear();
 			let n_errors = errors.clone();
 			let n_events = events.clone();
 			watcher_type = config_watcher;
